@@ -21,7 +21,7 @@ TRUSTED = [
     "Lex/Logos.v + Lex/LexerProofs.v (C17): lex_token_spec gives every token's line; the lexer model itself is tied to the real tokenizer by C17's correspondence",
     "Diag/Conflict.v as the model of find_conflict_markers and of Rust's str::lines (split at \\n, one trailing \\r stripped per line, no empty last line): modelled, not verified; validated against the real function on generated sources",
     "Diag/FileIds.v as the model of the work-list in sylt_parser::tree (file_id = number of files visited so far) and of Compiler::extract_namespaces: validated against `tree`'s module list on generated import graphs (cycles, diamonds, missing files)",
-    "Diag/SyntaxErr.v as the model of Context::peek/span and the syntax_error!/raise_syntax_error!/expect! macros",
+    "Diag/SyntaxErr.v as the model of Context::peek/span/skip/push_skip_newlines, of the syntax_error!/raise_syntax_error!/expect! macros and of outer_statement's error (tokens ahead + spans.last())",
     "translator tools/gens/gen_diag.py (the macro bodies, Context::peek, Span::zero, find_conflict_markers, extract_namespaces, the error!/resolution_error!/err_type_error! macros: normalised text compared with the reviewed text in Diag/DocDiag.v)",
     "the planters and the base-program generator in tools/diag_gen.py; harness `compile` (prints kind|file|line of every returned error in order), `tree`",
     "extraction: ExtrOcamlBasic + ExtrOcamlString only; ocaml/diag_driver.ml",
@@ -29,7 +29,8 @@ TRUSTED = [
 ASSUMPTIONS = [
     "per-kind theorems `the first error carries the span of the planted construct` for resolver / type-checker kinds are STATED (Definition ..._statement : Prop) and covered by the oracle only",
     "message text, columns and helper notes are not compared; only file and span.line_start of the first returned error",
-    "for a duplicate global either definition is accepted as `the offending construct`; for a missing `end` the line where the input ends is accepted (the parser cannot know where the `end` was meant to be), line 0 is not",
+    "for a duplicate global either definition is accepted as `the offending construct`; for a missing `end` any line from the function's last line to the line where the input ends is accepted (the parser cannot know where the `end` was meant to be), line 0 is not; for a bracket left open any later line of the same file is accepted (newlines are skipped inside brackets), line 0 is not",
+    "only known_findings entries with status `open` suppress a classifier: the three classes fixed in /repo (953bea1, b18ca25, 6e4bbe6) are VIOLATIONs again if they recur",
 ]
 EXPLANATION = ("Theorems: the line a token carries is 1 + the number of newlines before it (all inputs); the conflict-marker error carries the "
                "line that starts with <<<<<<<; file ids assigned by tree() are mapped back to the same file by namespace_id_to_file for "
